@@ -377,6 +377,13 @@ def predicate(c, obs):
         wrote_manually = False
         closed = False
         owner_changed = False
+        # (a') an account the program accepts has exactly discriminant + serialized size bytes (trailing bytes are refused,
+        #      as the client-side deserializer refuses them)
+        if r["tfa"][0] == "ok" and len(prev_data) > w and r["tfa"][1] is not None and r["tfa"][1] != UNKNOWN:
+            need = w + len(py_ser(ty, r["tfa"][1]))
+            if len(prev_data) != need:
+                return at + "the program decoded %s from an account of %d bytes; discriminant + serialized size is %d" % (
+                    _short(r["tfa"][1]), len(prev_data), need)
         if r["tfa"][0] == "ok":
             val = r["tfa"][1]
             for (k, x), st in zip(ins["ops"], r["steps"]):
